@@ -11,15 +11,18 @@
                       satisfy the laws: `list N` (`ListOps`, the reference reading "bytes = list of bytes")
                       and run-length strings (`RleOps`, used by the harness so that 3 MiB parameters stay
                       small inside Coq).  Every theorem of the Model section holds for BOTH.
-     * onnx writer  : `variant` = how `onnx.save_model(save_as_external_data=True, location=L)` treats an
-                      existing sidecar (`WAppend`: new payloads are written at the END of the existing file,
-                      offset recorded; `WTruncate`: file restarted) and whether it refuses to run when a file
-                      named L exists RELATIVE TO THE PROCESS CWD (`v_cwd_check`; onnx 1.22:
-                      `if os.path.exists(location): raise FileExistsError`).  The harness determines the
-                      variant that the installed onnx exhibits; the theorems quantify over all variants.
-     * jax2onnx     : `standard_core` = onnx writer with threshold, THEN remove the sidecar only when the export
-                      referenced no external data and the sidecar is EMPTY (nothing is truncated or removed
-                      before writing); `save_web` = self-contained write, THEN remove any sidecar.
+     * onnx writer  : `v_writer`, `v_cwd_check` of `variant` = how `onnx.save_model(save_as_external_data=True,
+                      location=L)` treats an existing sidecar (`WAppend`: new payloads are written at the END of
+                      the existing file, offset recorded; `WTruncate`: file restarted) and whether it refuses
+                      to run when a file named L exists RELATIVE TO THE PROCESS CWD (onnx 1.22:
+                      `if os.path.exists(location): raise FileExistsError`).
+     * jax2onnx     : standard export (`pre` then `standard_core`) = [since 1d7bd45, `v_remove_before`: remove an existing sidecar FIRST], then
+                      the onnx writer with threshold, THEN remove the sidecar only when the export referenced no
+                      external data and the sidecar is EMPTY; `save_web` = self-contained write, THEN remove any
+                      sidecar.  An export that raises has already performed the removal (`save` returns the
+                      directory and a success flag).  The harness determines the variant that code + installed
+                      onnx exhibit; general theorems quantify over all variants, the strong ones need
+                      `v_remove_before = true`.
      * reader       : `load` resolves every external reference by (location, offset, length) against the
                       CURRENT directory contents, with onnx's bounds checks.
 
